@@ -6,100 +6,13 @@ import (
 	"math/big"
 	"runtime"
 
-	"github.com/bnb-chain/tss-lib/v2/common"
-	edkg "github.com/bnb-chain/tss-lib/v2/eddsa/keygen"
-
 	"verif/internal/core"
 	"verif/internal/netrun"
-	"verif/internal/oracle"
 	"verif/internal/protomc"
-	"verif/internal/ref"
 	"verif/internal/scen"
 )
 
 const Implemented = true
-
-func edKeygenOracle(sc protomc.Scenario) func(ends [][]interface{}) []string {
-	return func(ends [][]interface{}) []string {
-		var parts []oracle.Sharing
-		for _, e := range ends {
-			parts = append(parts, oracle.EdSharing(e[0].(*edkg.LocalPartySaveData)))
-		}
-		ids := append([]*big.Int{}, sc.Cfg.Keys...)
-		sortBig(ids)
-		var out []string
-		for _, p := range oracle.CheckSharing(ref.Ed25519, parts, ids, sc.Cfg.Threshold, nil) {
-			out = append(out, p.Key)
-		}
-		return out
-	}
-}
-
-func sortBig(x []*big.Int) {
-	for i := range x {
-		for j := i + 1; j < len(x); j++ {
-			if x[j].Cmp(x[i]) < 0 {
-				x[i], x[j] = x[j], x[i]
-			}
-		}
-	}
-}
-
-func edSigningOracle(sc protomc.Scenario) func(ends [][]interface{}) []string {
-	return func(ends [][]interface{}) []string {
-		var out []string
-		var first *common.SignatureData
-		for _, e := range ends {
-			sd := e[0].(*common.SignatureData)
-			if first == nil {
-				first = sd
-			} else if string(first.Signature) != string(sd.Signature) {
-				out = append(out, "signers-disagree")
-			}
-			for _, p := range oracle.CheckEddsaSig(sd, sc.Cfg.EdKeys[0].EDDSAPub, sc.Cfg.Msg, sc.Cfg.FullBytesLen) {
-				out = append(out, p.Key)
-			}
-		}
-		return out
-	}
-}
-
-func edResharingOracle(sc protomc.Scenario) func(ends [][]interface{}) []string {
-	return func(ends [][]interface{}) []string {
-		nOld := len(sc.Cfg.EdKeys)
-		var parts []oracle.Sharing
-		for _, e := range ends[nOld:] {
-			parts = append(parts, oracle.EdSharing(e[0].(*edkg.LocalPartySaveData)))
-		}
-		ids := append([]*big.Int{}, sc.Cfg.NewKeys...)
-		sortBig(ids)
-		want := ref.Point{X: sc.Cfg.EdKeys[0].EDDSAPub.X(), Y: sc.Cfg.EdKeys[0].EDDSAPub.Y()}
-		var out []string
-		for _, p := range oracle.CheckSharing(ref.Ed25519, parts, ids, sc.Cfg.NewThreshold, &want) {
-			out = append(out, p.Key)
-		}
-		return out
-	}
-}
-
-func ecSigningOracle(sc protomc.Scenario) func(ends [][]interface{}) []string {
-	return func(ends [][]interface{}) []string {
-		var out []string
-		var first *common.SignatureData
-		for _, e := range ends {
-			sd := e[0].(*common.SignatureData)
-			if first == nil {
-				first = sd
-			} else if string(first.Signature) != string(sd.Signature) || string(first.SignatureRecovery) != string(sd.SignatureRecovery) {
-				out = append(out, "signers-disagree")
-			}
-			for _, p := range oracle.CheckEcdsaSig(sd, sc.Cfg.EcKeys[0].ECDSAPub, sc.Cfg.Msg, sc.Cfg.FullBytesLen) {
-				out = append(out, p.Key)
-			}
-		}
-		return out
-	}
-}
 
 type job struct {
 	sc   protomc.Scenario
@@ -110,7 +23,7 @@ type job struct {
 func Run(r *core.Run) {
 	w := runtime.NumCPU()
 	var jobs []job
-	addMode := func(sc protomc.Scenario, mode string, devs, dups int, or func(protomc.Scenario) func([][]interface{}) []string) {
+	addMode := func(sc protomc.Scenario, mode string, devs, dups int, or func(protomc.Scenario) func(protomc.TermCtx) []string) {
 		o := protomc.Options{C07: true, Mode: mode, Deviations: devs, Dups: dups, Workers: w}
 		if mode == "joint" || mode == "dev" {
 			sc.Cfg.RealRand = mode == "joint" && sc.Cfg.Proto == netrun.EcdsaSigning
@@ -120,7 +33,7 @@ func Run(r *core.Run) {
 		}
 		jobs = append(jobs, job{sc: sc, opt: o, kind: mode})
 	}
-	add := func(sc protomc.Scenario, dups int, or func(protomc.Scenario) func([][]interface{}) []string) {
+	add := func(sc protomc.Scenario, dups int, or func(protomc.Scenario) func(protomc.TermCtx) []string) {
 		o := protomc.Options{C07: true, Dups: dups, Workers: w, JointValidate: 40}
 		if or != nil {
 			o.ResultOracle = or(sc)
@@ -129,20 +42,20 @@ func Run(r *core.Run) {
 	}
 	msg := new(big.Int).SetBytes(core.Bytes("c07-msg", 32))
 	// EdDSA keygen: all schedules, with one duplicate delivery anywhere
-	add(scen.EdKeygen("small", 2, 1, r.Seed), 1, edKeygenOracle)
-	add(scen.EdKeygen("near-q", 3, 1, r.Seed), 0, edKeygenOracle)
-	add(scen.EdKeygen("small", 3, 2, r.Seed), 1, edKeygenOracle)
+	add(scen.EdKeygen("small", 2, 1, r.Seed), 1, scen.ResultOracle)
+	add(scen.EdKeygen("near-q", 3, 1, r.Seed), 0, scen.ResultOracle)
+	add(scen.EdKeygen("small", 3, 2, r.Seed), 1, scen.ResultOracle)
 	// EdDSA signing
-	add(scen.EdSigning("small", 3, 1, []int{0, 2}, msg, 0, r.Seed), 1, edSigningOracle)
-	add(scen.EdSigning("small", 3, 1, []int{0, 1, 2}, msg, 32, r.Seed), 1, edSigningOracle)
+	add(scen.EdSigning("small", 3, 1, []int{0, 2}, msg, 0, r.Seed), 1, scen.ResultOracle)
+	add(scen.EdSigning("small", 3, 1, []int{0, 1, 2}, msg, 32, r.Seed), 1, scen.ResultOracle)
 	// EdDSA resharing
-	add(scen.EdResharing(3, 1, []int{0, 2}, 2, 1, r.Seed), 1, edResharingOracle)
+	add(scen.EdResharing(3, 1, []int{0, 2}, 2, 1, r.Seed), 1, scen.ResultOracle)
 	// ECDSA signing: joint mode (round-2 values are not reproducible), all schedules for 2 signers
-	addMode(scen.EcSigning("small", 2, 1, []int{0, 1}, msg, 0, r.Seed), "joint", 0, 0, ecSigningOracle)
+	addMode(scen.EcSigning("small", 2, 1, []int{0, 1}, msg, 0, r.Seed), "joint", 0, 0, scen.ResultOracle)
 	if r.Tier == "thorough" {
-		add(scen.EdKeygen("large", 3, 1, r.Seed), 2, edKeygenOracle)
-		add(scen.EdSigning("small", 3, 2, []int{0, 1, 2}, msg, 0, r.Seed), 2, edSigningOracle)
-		add(scen.EdResharing(3, 1, []int{0, 1}, 2, 1, r.Seed), 2, edResharingOracle)
+		add(scen.EdKeygen("large", 3, 1, r.Seed), 2, scen.ResultOracle)
+		add(scen.EdSigning("small", 3, 2, []int{0, 1, 2}, msg, 0, r.Seed), 2, scen.ResultOracle)
+		add(scen.EdResharing(3, 1, []int{0, 1}, 2, 1, r.Seed), 2, scen.ResultOracle)
 	}
 	var states, trans, traces int
 	for _, j := range jobs {
